@@ -86,7 +86,8 @@ def build(spec, i, tag, p_read=0.3, outside=False, fault_mode="reissue"):
             from .c02 import rewrite
 
             new, trans = rewrite(g, ms.logical[0], info.kind)
-            steps.append({"outside": new, "res": 0, "bump": r.random() < 0.5, "trans": trans})
+            steps.append({"outside": new, "res": 0, "bump": r.random() < 0.5, "trans": trans,
+                          "replace": r.random() < 0.4})
             ms.outside(0, new)
             continue
         # an operation: prefer a handle of another root than the last writer
@@ -157,6 +158,8 @@ def build(spec, i, tag, p_read=0.3, outside=False, fault_mode="reissue"):
             "stratum": spec["stratum"], "oracle": {"results": True, "resource_strict": True}}
     if outside:
         case["track_raw"] = True
+    if info.backend == "json" and r.random() < 0.2:
+        case["symlink"] = True  # the file name is a symbolic link
     return case
 
 
